@@ -7,12 +7,13 @@
   the bounds); `encl I v := I.mn ∨ (v ≠ nan ∧ I.lo ≤ v ≤ I.hi)` is the property's statement and follows
   from it.  `BoostSound / Atan2Sound / ModSound` are the assumed contracts of the Boost / libm
   primitives.  The model mirrors the FIXED interval.hpp (fix commits f3afb29 a650b90 34669ce 6b977f5
-  d4c68d5 9cea0ae 0078f64 73663d7).  `SafeArgs op A B` is now `True` for every opcode except `pow` and
+  d4c68d5 9cea0ae 0078f64 73663d7 0be5df1).  `SafeArgs op A B` is now `True` for every opcode except `pow` and
   `nth_root` (integer constant exponent; two Boost corner cases, see `SafeArgs`).  The `*_unsound_old`
   theorems at the end are about the PRE-FIX formulas (`…Old` definitions) and document why each fix
   was needed.
 -/
 import LibfiveProofs.Interval3
+import LibfiveProofs.IntervalExact
 import Mathlib.Algebra.Order.Field.Rat
 import Mathlib.Data.Rat.Floor
 
@@ -226,6 +227,142 @@ theorem recip_unsound_old :
     · simp [IVal.ofOld] at h
     · have := h.2.2
       simp [IVal.b, IVal.ofOld, zeroV, precip, FVal.div, FVal.le] at this
+
+/-! ### The constructor repair (/repo 0be5df1): NaN-bounded Boost results become `[−∞,+∞]`
+
+    Before, `Interval(const I&, bool)` flagged a result with a NaN bound but KEPT the NaN bounds
+    (`IVal.ofNanKept`).  Boost treats a NaN-bounded interval as empty: `max`/`min` of it are empty and
+    `hull` ignores it, so `min`/`max`/`nanfill`'s "take the range of a maybe-NaN operand" rule lost the
+    operand's non-NaN values. -/
+
+/-- Boost's `test_input`: an interval with a NaN bound counts as empty -/
+def nanBnd (X : Bnd K) : Bool := X.lo.isNan || X.hi.isNan
+
+/-- `boost::numeric::max` as it behaves on libfive's `I` (observed on the real library): empty when an
+    operand has a NaN bound, endpoint-wise `std::max` otherwise -/
+def boostMaxB (X Y : Bnd K) : Bnd K := if nanBnd X || nanBnd Y then ⟨nan, nan⟩ else maxB X Y
+
+/-- `boost::numeric::hull` likewise: a NaN-bounded operand contributes nothing -/
+def boostHullB (X Y : Bnd K) : Bnd K :=
+  if nanBnd X then (if nanBnd Y then ⟨nan, nan⟩ else Y) else if nanBnd Y then X else hullB X Y
+
+/-- `Interval::max` with the PREVIOUS constructor (before 0be5df1) -/
+def imaxNanKept (Bo : BoostOps K) (A B : IVal K) : IVal K :=
+  let i := Bo.max A.b B.b
+  let i := if B.mn then Bo.hull i A.b else i
+  IVal.ofNanKept i A.mn
+
+theorem nanBnd_of_inBb {X : Bnd K} {a : FVal K} (h : inBb X a) : nanBnd X = false := by
+  have h1 := ne_nan_of_le_l h.2.1
+  have h2 := ne_nan_of_le_r h.2.2
+  unfold nanBnd
+  cases hl : X.lo <;> cases hh : X.hi <;> simp_all [FVal.isNan]
+
+/-- **nan_bounds_kept_unsound.**  With Boost's `max` / `hull` (which meet the contracts `BoostSound`
+    asks of them) and the PREVIOUS constructor, the hull rule of `Interval::max` is unsound: for
+    `A = [c,c]` and the Boost bounds `[NaN,+∞]` of `inf − z·inf` (`z` straddling 0; the only non-NaN
+    value is `+∞`), the previous constructor yields the operand `[NaN,+∞]` flagged, which satisfies the
+    property's `encl` but not the invariant `enclS`, and `max(A, ·)` is `[c,c]` NOT flagged although
+    `max(c, +∞) = +∞`.  The repaired constructor yields `[−∞,+∞]` flagged, which satisfies `enclS`, and
+    `max(A, ·)` encloses the value. -/
+theorem nan_bounds_kept_unsound (Bo : BoostOps K) (c : K) :
+    let Bo' : BoostOps K := { Bo with max := boostMaxB, hull := boostHullB }
+    let A : IVal K := ⟨fin c, fin c, false⟩
+    let Bb : Bnd K := ⟨nan, pinf⟩
+    -- the two primitives meet Boost's contracts
+    ((∀ X Y a b, inBb X a → inBb Y b → inBb (Bo'.max X Y) (pmax a b)) ∧
+     (∀ X Y a, inBb X a → inBb (Bo'.hull X Y) a) ∧ (∀ X Y a, inBb Y a → inBb (Bo'.hull X Y) a)) ∧
+    enclS A (fin c) ∧ pmax (fin c) pinf = pinf ∧
+    -- previous constructor: operand flagged, NaN bound kept; result `[c,c]` not flagged
+    (IVal.ofNanKept Bb true = ⟨nan, pinf, true⟩ ∧
+     encl (IVal.ofNanKept Bb true) pinf ∧ ¬ enclS (IVal.ofNanKept Bb true) pinf ∧
+     imaxNanKept Bo' A (IVal.ofNanKept Bb true) = ⟨fin c, fin c, false⟩ ∧
+     ¬ encl (imaxNanKept Bo' A (IVal.ofNanKept Bb true)) (pmax (fin c) pinf)) ∧
+    -- repaired constructor: operand `[−∞,+∞]` flagged; the result encloses the value
+    (IVal.of Bb true = ⟨ninf, pinf, true⟩ ∧ enclS (IVal.of Bb true) pinf ∧
+     imax Bo' A (IVal.of Bb true) = ⟨fin c, pinf, false⟩ ∧
+     enclS (imax Bo' A (IVal.of Bb true)) (pmax (fin c) pinf)) := by
+  intro Bo' A Bb
+  have hpm : pmax (fin c) (pinf : FVal K) = pinf := by simp [pmax, FVal.isNan, FVal.lt]
+  have hA : enclS A (fin c) := Or.inr ⟨by simp, by simp [A, IVal.b], by simp [A, IVal.b]⟩
+  have hold : imaxNanKept Bo' A (IVal.ofNanKept Bb true) = ⟨fin c, fin c, false⟩ := by
+    simp [imaxNanKept, IVal.ofNanKept, Bo', A, Bb, IVal.b, boostMaxB, boostHullB, nanBnd, FVal.isNan]
+  have hnew : imax Bo' A (IVal.of Bb true) = ⟨fin c, pinf, false⟩ := by
+    simp [imax, IVal.of, Bo', A, Bb, IVal.b, boostMaxB, boostHullB, nanBnd, FVal.isNan, maxB, hullB,
+      emax, FVal.fmin, FVal.fmax, FVal.lt]
+  refine ⟨⟨?_, ?_, ?_⟩, hA, hpm, ⟨rfl, Or.inl rfl, ?_, hold, ?_⟩, ⟨rfl, ?_, hnew, ?_⟩⟩
+  · intro X Y a b h1 h2
+    show inBb (boostMaxB X Y) (pmax a b)
+    simp only [boostMaxB, nanBnd_of_inBb h1, nanBnd_of_inBb h2, Bool.or_self, Bool.false_eq_true,
+      if_false]
+    exact maxB_sound h1 h2
+  · intro X Y a h
+    show inBb (boostHullB X Y) a
+    unfold boostHullB
+    simp only [nanBnd_of_inBb h, Bool.false_eq_true, if_false]
+    split
+    · exact h
+    · exact hullB_l Y h
+  · intro X Y a h
+    show inBb (boostHullB X Y) a
+    unfold boostHullB
+    simp only [nanBnd_of_inBb h, Bool.false_eq_true, if_false]
+    split
+    · exact h
+    · exact hullB_r X h
+  · rintro (⟨_, h⟩ | h)
+    · exact absurd h (by simp)
+    · have := h.2.1
+      simp [IVal.ofNanKept, Bb, IVal.b] at this
+  · rw [hold, hpm]
+    rintro (h | h)
+    · exact absurd h (by simp)
+    · have := h.2.2
+      simp [IVal.b, FVal.le] at this
+  · exact Or.inr ⟨by simp, rfl, rfl⟩
+  · rw [hnew, hpm]
+    exact Or.inr ⟨by simp, by simp [IVal.b, FVal.le], by simp [IVal.b, FVal.le]⟩
+
+/-- **flagged_bounds_enclose.**  The strong half of the invariant no longer needs NaN-free Boost
+    bounds: for every result `Interval(b, u)` of the (repaired) constructor, a non-NaN value that is
+    inside the Boost bounds `b` — or ANY non-NaN value when `b` has a NaN bound — is inside the
+    result's bounds; the result's own bounds are never NaN, and a NaN bound of `b` flags it. -/
+theorem flagged_bounds_enclose (b : Bnd K) (u : Bool) :
+    (∀ v : FVal K, v ≠ nan → (inBb b v ∨ (b.lo.isNan || b.hi.isNan) = true) →
+      inB (IVal.of b u) v ∧ enclS (IVal.of b u) v) ∧
+    ((b.lo.isNan || b.hi.isNan) = true → (IVal.of b u).mn = true) ∧
+    ((b.lo.isNan || b.hi.isNan) = false → (IVal.of b u).b = b ∧ (IVal.of b u).mn = u) ∧
+    (IVal.of b u).lo ≠ nan ∧ (IVal.of b u).hi ≠ nan := by
+  refine ⟨?_, ?_, ?_, ?_⟩
+  · intro v hv h
+    have : inB (IVal.of b u) v := by
+      rcases h with h | h
+      · exact inB_of h
+      · exact inB_of_iff.2 (Or.inr ⟨hv, h⟩)
+    exact ⟨this, Or.inr this⟩
+  · intro h
+    rw [mn_of]
+    simp only [Bool.or_eq_true] at h ⊢
+    rcases h with h | h
+    · exact Or.inl (Or.inr h)
+    · exact Or.inr h
+  · intro h
+    have h' := h
+    simp only [Bool.or_eq_false_iff] at h'
+    refine ⟨by rw [b_of]; simp [h], ?_⟩
+    rw [mn_of]; simp [h'.1, h'.2]
+  · by_cases h : (b.lo.isNan || b.hi.isNan) = true
+    · simp [IVal.of, h]
+    · have h' : b.lo.isNan = false ∧ b.hi.isNan = false := by simpa using h
+      have e : IVal.of b u = ⟨b.lo, b.hi, u⟩ := by simp [IVal.of, h'.1, h'.2]
+      rw [e]
+      constructor
+      · intro hn
+        have hn : b.lo = nan := hn
+        have := h'.1; rw [hn] at this; exact Bool.noConfusion this
+      · intro hn
+        have hn : b.hi = nan := hn
+        have := h'.2; rw [hn] at this; exact Bool.noConfusion this
 
 /-! ### The hypotheses are satisfiable (non-degenerate intervals, `K = ℚ`) -/
 
